@@ -6,6 +6,8 @@ import (
 	"encoding/json"
 	"fmt"
 	"math"
+	"strings"
+	"sync"
 	"testing"
 	"time"
 
@@ -23,6 +25,31 @@ func TestMain(m *testing.M) { vlib.Main(m) }
 var ev = vlib.NewEvidence("C10",
 	"codec: all ordered pairs of the int64 boundary set at all 64 shifts and of the float64 boundary set (exhaustive sub-space, counted under exhaustive_*), plus generated pairs of arbitrary values; non-trivial = the two values differ and lie on both sides of a 4-bit or 7-bit structure boundary (their truncations differ at shift s but agree at s+4, or the pair straddles the sign change). "+
 		"ranges: generated intervals (each end closed/open/unbounded, ordered/inverted/degenerate; ends at boundary values, a few steps beside them, arbitrary) run as NumericRange/DateRange queries on an index holding every boundary value (single- and multi-valued documents, several segments) or on a freshly built index whose values sit on and beside the ends, hit set compared with direct evaluation under the total order; non-trivial = the interval decomposes into sub-ranges on >= 2 precision levels or touches an extreme/unbounded end")
+
+// sampleOnce keeps at most one non-trivial sample per kind, so that the few sample slots of the
+// evidence show every kind of case.
+var (
+	sampleMu   sync.Mutex
+	sampleSeen = map[string]int{}
+)
+
+func sampleOnce(kind string, v interface{}, nontrivial bool) {
+	if !nontrivial {
+		return
+	}
+	// the driver shows six samples taken round-robin from the shards: even shards contribute
+	// codec and corpus cases, odd shards fresh-index cases first
+	if shard, n := vlib.Shard(); n > 1 && (shard%2 == 1) == strings.HasPrefix(kind, "codec") {
+		return
+	}
+	sampleMu.Lock()
+	n := sampleSeen[kind]
+	sampleSeen[kind]++
+	sampleMu.Unlock()
+	if n == 0 {
+		ev.Sample(v, true)
+	}
+}
 
 // -------------------------------------------------------------------------------------------
 // Part 1: the codec (pure)
@@ -331,7 +358,7 @@ func TestC10CodecGenerated(t *testing.T) {
 			_ = fb
 			nt := a != b && (math.Signbit(fa) != math.Signbit(math.Float64frombits(b)) || (a^b) >= 16)
 			ev.Case(vlib.Canon(c), nt, "codec-float")
-			ev.Sample(map[string]interface{}{"kind": "codec-float", "a": fa, "b": math.Float64frombits(b), "case": c}, nt)
+			sampleOnce("codec-float", map[string]interface{}{"kind": "codec-float", "a": fa, "b": math.Float64frombits(b), "case": c}, nt)
 			vlib.Report(rt, ev, "codec-float", c, f)
 			return
 		}
@@ -353,7 +380,7 @@ func TestC10CodecGenerated(t *testing.T) {
 		f := propIntPair(c)
 		nt := truncated(a, c.Shift) != truncated(b, c.Shift) && intPairNontrivial(a>>c.Shift, b>>c.Shift)
 		ev.Case(vlib.Canon(c), nt, "codec-int", fmt.Sprintf("codec-int:shift%%4=%d", c.Shift%4))
-		ev.Sample(map[string]interface{}{"kind": "codec-int", "case": c}, nt)
+		sampleOnce("codec-int", map[string]interface{}{"kind": "codec-int", "case": c}, nt)
 		vlib.Report(rt, ev, "codec-int", c, f)
 	})
 }
